@@ -110,21 +110,11 @@ def run(env, rep):
     prog = env.prog
     # format bits of the reader
     gf = m.b["get_format"]
-    bits = {}
-    for p in grammar.reads(env, gf.key).paths:
-        w = [t for t in p if t[0] == "when"]
-        r = [t for t in p if t[0] == "returns"]
-        if w and r:
-            mm = re.match(r"^ChunkHeaderFormat::(\w+)$", r[-1][1])
-            mask = re.match(r"^\(.* BitAnd (\d+)\)$", w[-1][1])
-            if mm and mask:
-                val = w[-1][2]
-                bits[mm.group(1)] = (int(mask.group(1)), val)
-    # variant <-> format number through the bits
+    bits = chunk.reader_format_table(m)       # variant -> top two bits of the first byte
     fmt_no = {}
     for k, b in spec["format_bits"].items():
-        for vn, (mask, val) in bits.items():
-            if mask == 192 and (val == str(b) or (val.startswith("other:") and str(b) not in val[6:].split(",") and len(val[6:].split(",")) == 3)):
+        for vn, cls in bits.items():
+            if cls * 64 == b:
                 fmt_no[vn] = int(k)
     rep.check("C06.R1", "format-bits", sorted(fmt_no.values()) == [0, 1, 2, 3] and len(fmt_no) == 4,
               "the two top bits select the header format: %s" % {v: k for k, v in sorted(fmt_no.items(), key=lambda x: x[1])},
